@@ -23,7 +23,7 @@ LEVEL_NOTE = "Trusts numpy datetime64 arithmetic for decoding results and icontr
 RULE = ("case = chunk of (start, stop, dt, reference, direction) combinations; thorough adds the exhaustive lattice start,stop in 0..40 s, dt in 1..7 s, "
         "reference in {none, start-5, start+3}; every combination is stepped Nsteps+2 times and probed at steps -5..Nsteps+5. Non-trivial: Nsteps >= 1; "
         "distinct by (duration, dt, direction, reference offset).")
-MANDATORY = ["zero_period_spellings", "reference_time_decades_before_the_run", "output_period_not_a_whole_number_of_steps", "output_file_time_values_checked", "forward", "reversed", "dt_not_dividing", "explicit_reference", "negative_steps_probed", "invariant_evaluations",
+MANDATORY = ["warm_start_clock_checked", "zero_period_spellings", "reference_time_decades_before_the_run", "output_period_not_a_whole_number_of_steps", "output_file_time_values_checked", "forward", "reversed", "dt_not_dividing", "explicit_reference", "negative_steps_probed", "invariant_evaluations",
              "period_spellings_compared", "malformed_rejected", "resets_checked", "positioned_clock_updates"]
 ASSUMPTIONS = ["step2nctime is exercised with the documented units s, m, h only",
                "negative periods and a trailing newline are accepted by normalize_period and are not called malformed by the property"]
@@ -61,6 +61,8 @@ _state: dict[str, Any] = dict(n=0, installed=False)
 
 def clock_matches_step(self) -> bool:
     _state["n"] += 1
+    if _state.get("suspended"):
+        return True  # inside Model.__init__, which positions the clock of a warm start in two assignments; judged again when it returns
     return bool(self.time == self.step2time(self.step))
 
 
@@ -70,6 +72,20 @@ def _install():
 
     if not _state["installed"]:
         icontract.invariant(clock_matches_step, error=InvariantBroken)(tk.TimeKeeper)
+        import ladim.model as lm  # noqa: PLC0415
+
+        orig_init = lm.Model.__init__
+
+        def init_observed(self, *a, **k):
+            _state["suspended"] = _state.get("suspended", 0) + 1
+            try:
+                orig_init(self, *a, **k)
+            finally:
+                _state["suspended"] -= 1
+            if not _state["suspended"] and not clock_matches_step(self.timer):
+                raise InvariantBroken("running clock != step2time(step) after Model.__init__")
+
+        lm.Model.__init__ = init_observed
         _state["installed"] = True
     return tk
 
@@ -286,6 +302,8 @@ def _outfile(case, wd, V, sit, cnt, keys):
     w = C.still_world(lo, hi, imax=10, jmax=9, N=2)
     run = dict(start=start, stop=str(tadd(start, sg * ns * dt)), dt=dt, reversed=rev, reference=ref, advection="EF",
                release=dict(columns=["release_time", "X", "Y", "Z"], rows=[[start, 4.5, 4.5, 1.0]], header=True), output=dict(period=spell))
+    if case["idx"] % 4 in (0, 3):
+        run["output"]["numrec"] = 2
     written: list[np.datetime64] = []
     with Hooks() as hk:
         from ladim.out_netcdf import Output  # noqa: PLC0415
@@ -299,6 +317,21 @@ def _outfile(case, wd, V, sit, cnt, keys):
         return
     times = [r.time for f in read_outputs(res.outputs) for r in f.records]
     sit["output_file_time_values_checked"] = len(times)
+    if case["idx"] % 4 in (0, 3) and len(res.outputs) > 1:
+        # the run taken up again from its first output file: the clock goes on from that file's last record, in the run's direction
+        run2 = dict(run, warm_start=dict(filename=str(res.outputs[0]), variables=[]))
+        run2["output"] = dict(run["output"], filename="out_001.nc")
+        res2, _c2, _w2 = run_scenario(dict(world=None, run=run2), wd / "warm", world=_w)
+        if not res2.ok:
+            V.append(C.viol(f"warm start from {res.outputs[0].name} did not complete: {res2.exc}", tb=res2.tb[-1000:], **desc))
+        else:
+            t_re = read_outputs(res.outputs[:1])[0].records[-1].time
+            want2 = [t for t in times if (t < t_re if rev else t > t_re)]
+            got2 = [r.time for f in read_outputs(res2.outputs) for r in f.records]
+            stop_t = np.datetime64(run["stop"], "s")
+            sit["warm_start_clock_checked"] = 1
+            if [t for t in got2 if t != stop_t] != [t for t in want2 if t != stop_t]:
+                V.append(C.viol(f"run warm-started at {t_re}: its records carry the times {[str(t) for t in got2][:6]}, the uninterrupted run goes on with {[str(t) for t in want2][:6]}", **desc))
     if [str(t) for t in times] != [str(t) for t in written]:
         V.append(C.viol(f"time coordinate of the output file reads {[str(t) for t in times][:6]}, the records were written at model times {[str(t) for t in written][:6]}", **desc))
     keys.add(("outfile", dt, ns, str(spell), rev, ref))
